@@ -20,6 +20,7 @@ HARNESSES = [
     Harness('c05_string_unchanged_both_ways', 'value.string', G + 'string', bounded=HEAP),
     Harness('c05_list_u8_unchanged_both_ways', 'value.list_u8', G + 'list<u8> (canonical list)', bounded=HEAP),
     Harness('c05_list_u32_unchanged_both_ways', 'value.list_u32', G + 'list<u32> (canonical list)', bounded=HEAP),
+    Harness('c05_list_of_pairs_unchanged_both_ways', 'value.list_of_tuples', G + 'list<tuple<u8, u32, u8>> (element-wise list: a Rust tuple is not canonical)', bounded=HEAP),
 ]
 # about nine minutes of CBMC: thorough tier only
 THOROUGH = [
@@ -37,7 +38,7 @@ ASSUME = ['PARTIAL and BOUNDED: the claim is about the bindings the real generat
 
 def run(rep, tier):
     rep.assume(*ASSUME)
-    d = rustgen.generate(rep, 'rustgen_val')
+    d = rustgen.generate(rep, 'rustgen_val', mock=True)
     hs = HARNESSES + (THOROUGH if tier == 'thorough' else [])
     if tier != 'thorough':
         rep.notes.append('the list<string> obligation (nested element-wise list, ~9 min of CBMC) runs in the thorough tier only')
